@@ -25,7 +25,10 @@ pub fn search(ctx: &Context, query: &str, num_results: usize) -> SearchReply {
     SearchReply {
         results: search_internal(ctx, query, num_results)
             .into_iter()
-            .map(|name| {
+            // A unit that is defined but shadowed (a definitions file may
+            // call one `ans`, which is the previous answer to `lookup`) is
+            // left out.
+            .filter_map(|name| {
                 let parts = ctx
                     .lookup(name)
                     .map(|x| x.to_parts(ctx))
@@ -38,15 +41,14 @@ pub fn search(ctx: &Context, query: &str, num_results: usize) -> SearchReply {
                         } else {
                             None
                         }
-                    })
-                    .expect("Search returned non-existent result");
+                    })?;
                 let raw = Dimensionality::base_unit(BaseUnit::new(name));
-                NumberParts {
+                Some(NumberParts {
                     unit: Some(name.to_owned()),
                     raw_unit: Some(raw),
                     quantity: parts.quantity,
                     ..Default::default()
-                }
+                })
             })
             .collect(),
     }
